@@ -3,6 +3,7 @@ package yaml
 import (
 	"bytes"
 	"errors"
+	"reflect"
 	"strings"
 
 	"github.com/goccy/go-yaml"
@@ -55,8 +56,9 @@ func Update(f *ast.File, path *yaml.Path, value interface{}) error {
 	// The replace re-indents the new node by the column of its first token. For a
 	// block mapping that is the ':' of the first key, so the result depends on the
 	// key's length (invalid yaml, a different document or a panic), and a literal
-	// block scalar keeps its own indentation. Write those on one line instead.
-	if blockMappingOrLiteral(b) {
+	// block scalar keeps its own indentation. Write those on one line instead, and
+	// also values the plain rendering does not preserve.
+	if blockMappingOrLiteral(b) || !decodesTo(b, value) {
 		b, err = yaml.MarshalWithOptions(value, yaml.JSON())
 		if err != nil {
 			return err
@@ -64,6 +66,22 @@ func Update(f *ast.File, path *yaml.Path, value interface{}) error {
 	}
 
 	return path.ReplaceWithReader(f, bytes.NewReader(b))
+}
+
+// decodesTo reports whether b reads back as value. The encoder leaves some strings
+// unquoted that are yaml syntax ("- a", "---", "...", ".inf", a tab).
+func decodesTo(b []byte, value interface{}) bool {
+	quoted, err := yaml.MarshalWithOptions(value, yaml.JSON())
+	if err != nil {
+		return true
+	}
+
+	var got, want interface{}
+	if yaml.Unmarshal(b, &got) != nil || yaml.Unmarshal(quoted, &want) != nil {
+		return false
+	}
+
+	return reflect.DeepEqual(got, want)
 }
 
 func blockMappingOrLiteral(b []byte) bool {
